@@ -6,3 +6,6 @@ import AGV.Props.C12
 #print axioms AGV.Props.C12.c12_upload_violated_by_valueIndex
 #print axioms AGV.Props.C12.c12_depth_guard
 #print axioms AGV.Props.C12.c12_depth_guard_needed
+#print axioms AGV.Props.C12.c12_unbounded_nesting
+#print axioms AGV.Props.C12.c12_unbounded_nesting_slope
+#print axioms AGV.Props.C12.c12_spread_violated_by_spreadsExpanded
